@@ -687,7 +687,12 @@ func NewModBigIntMemoryUsage(a, b *big.Int) MemoryUsage {
 	if a.Cmp(b) < 0 || bWordLength == 1 {
 		resultWordLength = aWordLength + 4
 	} else if bWordLength < 100 {
-		resultWordLength = aWordLength - bWordLength + 5
+		// The quotient has up to |a| - |b| + 1 words,
+		// the remainder has up to |b| words
+		resultWordLength = max(
+			aWordLength-bWordLength+5,
+			bWordLength+4,
+		)
 	} else {
 		recursionCost := int(unsafe.Sizeof(uintptr(0))) +
 			9*bWordLength +
